@@ -59,13 +59,13 @@ TDlCall == IsEvent("DlCall") /\ \E q \in reqs : q.node = R.node /\ q.d = R.d /\ 
 TDlRet  == IsEvent("DlRet") /\ \E q \in reqs : q.node = R.node /\ q.d = R.d /\ DlRet(q, R.kind)
 TRemote == /\ IsEvent("RemoteUp")
            /\ \E q \in reqs : /\ q.node = R.node /\ q.ns = R.ns /\ q.d = R.d /\ q.str = R.str
-                              /\ R.ok = ~env.rdown /\ R.good
+                              /\ R.ok = RemoteOK(env.rhosts) /\ R.good
                               /\ Remote(q)
 
 TEnv == /\ IsEvent("Env")
         /\ CASE R.what = "up"      -> SetUp(R.node, R.on)
              [] R.what = "bdown"   -> SetBDown(R.on)
-             [] R.what = "rdown"   -> SetRDown(R.on)
+             [] R.what = "rhosts"  -> SetRHosts(R.locs)
              [] R.what = "wbfail"  -> SetWbFail(IF R.on THEN env.wbfail \cup {R.node} ELSE env.wbfail \ {R.node})
              [] R.what = "backend" -> SetBackend(env.backend \cup {R.d})
              [] R.what = "ring"    -> SetRing(R.d, R.locs)
@@ -96,6 +96,7 @@ TCacheOnlyVerified     == [][IsReset \/ CacheOnlyVerifiedA]_tvars
 TTasksOnlyGrow         == [][IsReset \/ TasksOnlyGrowA]_tvars
 TCleanupOnlyCandidates == [][IsReset \/ CleanupOnlyCandidatesA]_tvars
 TRemovalOnlyByDelete   == [][IsReset \/ RemovalOnlyByDeleteA]_tvars
+TReplicateTruthful     == [][IsReset \/ ReplicateTruthfulA]_tvars
 
 HW == TLCSet(1, IF TLCGet(1) < l THEN l ELSE TLCGet(1))
 TraceAccepted == IF TLCGet(1) = Len(Trace) + 1 THEN TRUE
